@@ -759,7 +759,13 @@ impl C09 {
         counters: &mut Counters,
     ) -> Result<(), Violation> {
         // parse_limited
-        let limit = ctx.choose(n.deltas().len() as u64 + 3) as usize;
+        // mostly around the list's length; sometimes "no limit" spelled as a
+        // huge number
+        let limit = match ctx.choose(8) {
+            0 => usize::MAX,
+            1 => usize::MAX / 2,
+            _ => ctx.choose(n.deltas().len() as u64 + 3) as usize,
+        };
         let mut r = reader(ctx, bytes, plain_read_cfg());
         let limited = guarded("parse_limited", || Ok(NotificationFile::parse_limited(&mut r, limit)))?;
         match limited {
